@@ -5,7 +5,7 @@
 From Coq Require Import String List NArith ZArith Bool Permutation.
 Import ListNotations.
 Require Import Verif.Export.OasTypes Verif.Export.OasExport Verif.Export.OasCurrent Verif.Export.GoMapProps
-               Verif.Export.OasExportProps Verif.Gen.ExportTables.
+               Verif.Export.OasExportProps Verif.Export.OasParamProps Verif.Gen.ExportTables.
 
 (* ---- obligations against the source (break when an arm of exportType, the rule filling `required`, the assignment
    of array items, a sort before emission, or one of the repairs changes) *)
@@ -42,17 +42,45 @@ Proof.
   eexists. split; [vm_compute; reflexivity|reflexivity].
 Qed.
 
-(* ---- completeness, endpoints (partial: existence and identity of the operation; parameters, body and responses of
-   that operation are what export_operation computes - tied to the code by correspondence, not characterised by a
-   separate specification): export does not fail when every method is an OpenAPI method, and every endpoint is the
-   operation under its path and method *)
-Theorem C12_export_complete_endpoints_partial : forall o a, perm_oracle o -> wf_app a ->
+(* ---- completeness, endpoints: export does not fail when every method is an OpenAPI method, and every endpoint is the
+   operation under its path and method ... *)
+Theorem C12_export_complete_endpoints : forall o a, perm_oracle o -> wf_app a ->
   (forall kv, In kv (a_endpoints a) -> op_key (e_key (snd kv)) <> None) ->
   exists d, export3_with fixed3 o a = Ok d /\
     forall n e, In (n,e) (a_endpoints a) ->
       mget (opk (e_key e)) (d_ops d) = Some (export_operation fixed3 ido (snd (build_ep fixed3 ido a (n,e)))).
 Proof. exact export_complete_endpoints. Qed.
-Print Assumptions C12_export_complete_endpoints_partial.
+Print Assumptions C12_export_complete_endpoints.
+
+(* ... and that operation lists every path, query and header parameter of the endpoint (parameter names distinct) with
+   its location, required exactly when the type is not optional, and the schema of its type.  Partial: the request body
+   and the responses of the operation are what export_operation computes (correspondence + oracle, no separate
+   specification). *)
+Theorem C12_export_complete_params_partial : forall a n e, NoDup (param_names e) ->
+  let op := export_operation fixed3 ido (snd (build_ep fixed3 ido a (n,e))) in
+  (forall p, In p (e_url e) ->
+     In {| op_name := q_name p; op_in := "path"; op_required := negb (sty_opt (q_ty p));
+           op_schema := export_type fixed3 ido (map_type ido (q_ty p)) |} (o_params op)) /\
+  (forall p, In p (e_query e) ->
+     In {| op_name := q_name p; op_in := "query"; op_required := negb (sty_opt (q_ty p));
+           op_schema := export_type fixed3 ido (map_type ido (q_ty p)) |} (o_params op)) /\
+  (forall p, In p (e_params e) -> sp_body p = false ->
+     In {| op_name := sp_name p; op_in := "header"; op_required := negb (sty_opt (sp_ty p));
+           op_schema := export_type fixed3 ido (map_type ido (sp_ty p)) |} (o_params op)).
+Proof. exact export_complete_params. Qed.
+Print Assumptions C12_export_complete_params_partial.
+
+(* non-vacuity: an endpoint with a path, an optional query and a header parameter *)
+Example C12_params_nonvacuous :
+  let e := {| e_key := KRest "GET" 9; e_params := [{| sp_name := 5; sp_body := false; sp_ty := SPrim false "string" |}];
+              e_query := [{| q_name := 6; q_ty := SPrim true "int" |}]; e_url := [{| q_name := 7; q_ty := SPrim false "int" |}];
+              e_rets := [] |}%N in
+  NoDup (param_names e) /\
+  o_params (export_operation fixed3 ido (snd (build_ep fixed3 ido {| a_name := 1; a_n200 := 2; a_types := []; a_endpoints := [] |}%N (8%N, e)))) =
+    [ {| op_name := 5%N; op_in := "header"; op_required := true; op_schema := Sch 0%N "string" "" None [] [] [] |};
+      {| op_name := 6%N; op_in := "query"; op_required := false; op_schema := Sch 0%N "integer" "int64" None [] [] [] |};
+      {| op_name := 7%N; op_in := "path"; op_required := true; op_schema := Sch 0%N "integer" "int64" None [] [] [] |} ].
+Proof. split; [repeat constructor; cbn; intuition discriminate|reflexivity]. Qed.
 
 (* ---- termination on recursive types (full): the schema is no deeper than the type's own syntax tree, for every table,
    iteration order and reference graph; a reference, also one closing a cycle, is a leaf naming its target *)
